@@ -81,15 +81,33 @@ impl Storage<Key> for CountingStorage {
 }
 
 fn canon_key(k: &Key) -> String {
-    let mut l: Vec<(String, String)> = k.labels().map(|l| (l.key().to_string(), l.value().to_string())).collect();
-    l.sort();
-    format!("{}{:?}", k.name(), l)
+    class_of(k)
+}
+
+thread_local! {
+    /// representatives of the key-equality classes seen in the current case (decided by `Key::eq`
+    /// itself: the property says the registry compares keys by key equality)
+    static CLASSES: std::cell::RefCell<Vec<Key>> = std::cell::RefCell::new(Vec::new());
+}
+
+fn reset_classes() {
+    CLASSES.with(|c| c.borrow_mut().clear());
+}
+
+fn class_of(k: &Key) -> String {
+    CLASSES.with(|c| {
+        let mut c = c.borrow_mut();
+        if let Some(i) = c.iter().position(|r| r == k) {
+            return format!("class{}", i);
+        }
+        c.push(Key::from_parts(k.name().to_string(), k.labels().cloned().collect::<Vec<_>>()));
+        format!("class{}", c.len() - 1)
+    })
 }
 
 fn canon_spec(s: &Spec) -> String {
-    let mut l = s.labels.clone();
-    l.sort();
-    format!("{}{:?}", s.name, l)
+    let k = Key::from_parts(s.name.clone(), s.labels.iter().map(|(a, b)| metrics::Label::new(a.clone(), b.clone())).collect::<Vec<_>>());
+    class_of(&k)
 }
 
 const PATHS: [Path; 6] = [Path::PartsOwned, Path::PartsStatic, Path::PartsArc, Path::StaticParts, Path::TupleSlice, Path::CloneOfStatic];
@@ -117,8 +135,8 @@ fn decode(src: &mut Source) -> Case {
     let specs: Vec<Spec> = (0..nk)
         .map(|_| {
             let mut labels = vec![];
-            for ln in ["a", "b", "c", "d"] {
-                if src.chance(110) {
+            for ln in ["a", "b", "c", "d", "a"] {
+                if src.chance(100) {
                     labels.push((ln.to_string(), src.pick(&["1", "2"]).to_string()));
                 }
             }
@@ -169,6 +187,7 @@ macro_rules! by_kind {
 }
 
 fn run_sequential(case: &Case, ctx: &mut Ctx) -> Result<(), Fail> {
+    reset_classes();
     let shared = Arc::new(Shared::default());
     let registry: Registry<Key, CountingStorage> = Registry::new(CountingStorage(shared.clone()));
     let registry_storage_count = |c: &(u8, String)| shared.built.lock().unwrap().iter().filter(|b| *b == c).count();
@@ -226,8 +245,8 @@ fn run_sequential(case: &Case, ctx: &mut Ctx) -> Result<(), Fail> {
             Op::RetainHasLabel(kind, label) => {
                 let pred = |k: &Key, _: &Arc<Slot>| k.labels().any(|l| l.key() == label);
                 by_kind!(*kind, registry, retain_counters, retain_gauges, retain_histograms, pred);
-                let needle = format!("(\"{}\",", label);
-                model.retain(|(mk, c), _| *mk != *kind || c.contains(&needle));
+                let has_label: Vec<bool> = CLASSES.with(|c| c.borrow().iter().map(|k| k.labels().any(|l| l.key() == label)).collect());
+                model.retain(|(mk, c), _| *mk != *kind || has_label[c[5..].parse::<usize>().unwrap()]);
             }
             Op::Clear => {
                 registry.clear();
@@ -510,7 +529,7 @@ pub fn run(cfg: &RunCfg, replay: Option<&str>) -> i32 {
     if let Some(f) = replay {
         return pr.replay(f);
     }
-    pr.assume("label names within one key are distinct; listings and visits are checked at quiescence only");
+    pr.assume("which keys are equal is decided by Key::eq itself (so keys with a repeated label name are included); listings and visits are checked at quiescence only");
     pr.assume("concurrent lane: SC interleavings at the hook between read-unlock and write-lock plus harness points between operations; linearizability is checked against one atomic map per kind with abstract storage identities");
     let r = pr.run_regressions();
     pr.push(r);
